@@ -53,6 +53,13 @@ def _run_unit(arg):
         mod = importlib.import_module(modname)
         unit = mod.UNITS[idx]
         res = execu.explore(unit, max_paths=getattr(unit, "max_paths", 4000))
+        native = {}
+        for k, o in enumerate(res.obligations):
+            if o.status == "refuted":
+                try:
+                    native[k] = execu.native_replay(unit, o)
+                except Exception as e:  # the adapter failing is not a verdict
+                    native[k] = None
         out = dict(
             unit=unit.name, functions=list(unit.functions), paths=res.paths, aborted=res.aborted,
             vacuous_paths=res.vacuous_paths, covers=sorted(res.covers), errors=res.errors,
@@ -60,13 +67,16 @@ def _run_unit(arg):
             obligations=[o.as_dict() for o in res.obligations], notes=sorted(set(res.notes)),
             expected=list(getattr(unit, "expected", ())),
         )
-        # replay refuted obligations against the real code
-        for o in out["obligations"]:
+        # replay refuted obligations against the real code: the unit's own adapter first, then the generic native replay
+        for k, o in enumerate(out["obligations"]):
             if o["status"] == "refuted" and hasattr(unit, "replay"):
                 try:
                     o["replay"] = unit.replay(o.get("model") or {}, o)
                 except Exception as e:  # replay adapter failure is not a verdict
                     o["replay"] = dict(reproduced=False, detail=f"replay adapter error: {type(e).__name__}: {e}")
+            if o["status"] == "refuted" and native.get(k) and not (o.get("replay") or {}).get("reproduced"):
+                if native[k].get("reproduced") or not o.get("replay"):
+                    o["replay"] = native[k]
         return out
     except Exception:
         return dict(unit=f"{modname}[{idx}]", functions=[], paths=0, aborted=0, vacuous_paths=0, covers=[],
@@ -266,6 +276,24 @@ def run_property(pid, tier="quick", seed=0, jobs=None):
                                undecided_obligations=sorted(unknown_ids), tree=_tree_sha(),
                                rerun=f"./check {pid} --tier {tier}"), f, indent=1, default=str)
             violations.append((k, path, True))
+    # The contracts do not fit the code any more (unsupported construct, loop shape changed, expected obligation not generated):
+    # undecided for the deductive part - but the statement-level search of the real code may still show a failing input.
+    if errors and not violations and hasattr(mod, "witness_search"):
+        if "w" not in witness_cache:
+            try:
+                witness_cache["w"] = mod.witness_search(tier, seed)
+            except Exception as e:
+                witness_cache["w"] = None
+                errors.append(f"witness search crashed: {type(e).__name__}: {e}")
+        if witness_cache.get("w"):
+            path = os.path.join("replay", f"{pid}-search.json")
+            with open(os.path.join(VERIF, path), "w") as f:
+                json.dump(dict(property=pid, obligation="statement-level-search",
+                               verdict="the deductive part is undecided on this tree (see errors: the contracts no longer fit the code); "
+                                       "the statement-level search of the real code found a failing input",
+                               errors=errors[:6], witness_from_search=witness_cache["w"], reproduced_on_real_code=True, tree=_tree_sha(),
+                               rerun=f"./check {pid} --tier {tier}"), f, indent=1, default=str)
+            violations.append(("statement-level-search", path, True))
     n_ob = len(id_status)
     n_dis = sum(1 for st in id_status.values() if st == "discharged")
 
